@@ -41,6 +41,10 @@ PEERS = {
     "peer_eof+close": ["peof", "pclose 2"],
     "adjust": ["adjust 100"],
     "request_failed": ["reqfail 2"],
+    # the peer repeats its CHANNEL_OPEN_CONFIRMATION for the channel (real _parse_channel_open_success →
+    # _set_remote_channel), alone and followed by its CLOSE
+    "dup_confirmation": ["psucc"],
+    "dup_confirmation+peer_close": ["psucc", "pclose 2"],
 }
 
 
@@ -94,6 +98,10 @@ class Exec:
             pass    # the transport no longer dispatches to a channel it has dropped (transport loss before)
         elif op.startswith("pclose"):
             self.pclose_done = True
+        if op == "psucc":               # same ids, same sizes: no model counterpart (nothing may change)
+            self.reqs.append("nop")
+            self.impl.append("*")
+            return
         if op.startswith("shut2"):      # shutdown(2) = shutdown(0) then shutdown(1): two model actions
             self.reqs.append("shutr")
             self.impl.append("*")
@@ -136,6 +144,8 @@ class Exec:
                 return
         n0 = len(self.rig.wire)
         results = []
+        # a repeated OPEN_CONFIRMATION for the dead channel must not make it closable again
+        self.do("psucc")
         # reading what is left in the buffers of the dead channel must not produce a WINDOW_ADJUST
         for err in (0, 1):
             if len(c.in_stderr_buffer if err else c.in_buffer) > 0:
@@ -310,7 +320,7 @@ def run(ctx):
     batches.append((case, reqs, impl))
 
     # ---- interleavings
-    cap = 400 if ctx.thorough else 60
+    cap = 400 if ctx.thorough else 26
     exhaustive_all = True
     for (wn, w), (cn, c), (pn, p) in itertools.product(WRITERS.items(), CLOSERS.items(), PEERS.items()):
         for peer_win in (32768, 0):
@@ -337,9 +347,9 @@ def run(ctx):
     #      _send_eof / _close_internal, taken whenever the thread does not hold the channel lock)
     deciders = ["shutw", "shut2", "close", "pclose", "reqfail"]
     for a, b in itertools.product(deciders, deciders):
-        for third in ([], ["shutw 0"], ["close 0"]):
+        for third in (([], ["shutw 0"], ["close 0"], ["psucc"]) if ctx.thorough else ([], ["close 0"], ["psucc"])):
             progs = [list(third), ["%s 1" % a], ["%s 2" % b]]
-            orders, complete = interleavings(progs, 32768, 400, rng)
+            orders, complete = interleavings(progs, 32768, 400 if ctx.thorough else 40, rng)
             for order in orders:
                 ex = run_order(progs, order, 32768)
                 case = {"deciders": [a, b] + third, "order": order, "schedule": ex.reqs[1:], "wire": ex.rig.wire}
@@ -351,7 +361,7 @@ def run(ctx):
                 batches.append((case, ex.reqs, ex.impl))
 
     # ---- random schedules with closes
-    for i in range(3000 if ctx.thorough else 400):
+    for i in range(3000 if ctx.thorough else 300):
         nthr = rng.choice([2, 3])
         in_win, peer_win, peer_max = c19.pick_sizes(rng)
         rig = lib_chan.Rig(in_win, peer_win, peer_max, nthr)
